@@ -18,32 +18,68 @@ static ALLOCS: AtomicU64 = AtomicU64::new(0);
 
 extern "C" {
     fn malloc(n: usize) -> *mut c_void;
-    fn calloc(n: usize, s: usize) -> *mut c_void;
-    fn realloc(p: *mut c_void, n: usize) -> *mut c_void;
     fn free(p: *mut c_void);
+    fn memset(p: *mut c_void, c: i32, n: usize) -> *mut c_void;
+}
+/// Counting AND poisoning allocator (same as C07's explorer): freed memory is filled with 0xA5 before it goes
+/// back to libc, realloc always moves, the size lives in a 16-byte header; a free/realloc of a block that is
+/// not live (double free, foreign pointer) aborts.  A read through a dangling subtree pointer therefore sees
+/// poison (the dump differs / the process dies) instead of the old content "by luck".
+const HDR: usize = 16;
+unsafe fn blk_new(n: usize, fill: u8) -> *mut c_void {
+    let base = malloc(n + HDR);
+    if base.is_null() {
+        return base;
+    }
+    *(base as *mut usize) = n;
+    *(base as *mut usize).add(1) = 0x7573_6564;
+    let p = (base as *mut u8).add(HDR) as *mut c_void;
+    memset(p, fill as i32, n);
+    p
+}
+unsafe fn blk_size(p: *mut c_void) -> usize {
+    let base = (p as *mut u8).sub(HDR) as *mut usize;
+    if *base.add(1) != 0x7573_6564 {
+        eprintln!("c08: free/realloc of a block that is not live (double free or foreign pointer)");
+        std::process::abort();
+    }
+    *base
+}
+unsafe fn blk_drop(p: *mut c_void) {
+    let n = blk_size(p);
+    let base = (p as *mut u8).sub(HDR);
+    *(base as *mut usize).add(1) = 0x6672_6565;
+    memset(p, 0xA5, n);
+    free(base as *mut c_void);
 }
 unsafe extern "C" fn c_malloc(n: usize) -> *mut c_void {
     LIVE.fetch_add(1, Ordering::SeqCst);
     ALLOCS.fetch_add(1, Ordering::Relaxed);
-    malloc(n)
+    blk_new(n, 0xA5)
 }
 unsafe extern "C" fn c_calloc(n: usize, s: usize) -> *mut c_void {
     LIVE.fetch_add(1, Ordering::SeqCst);
     ALLOCS.fetch_add(1, Ordering::Relaxed);
-    calloc(n, s)
+    blk_new(n.saturating_mul(s), 0)
 }
 unsafe extern "C" fn c_realloc(p: *mut c_void, n: usize) -> *mut c_void {
     if p.is_null() {
-        LIVE.fetch_add(1, Ordering::SeqCst);
-        ALLOCS.fetch_add(1, Ordering::Relaxed);
+        return c_malloc(n);
     }
-    realloc(p, n)
+    let old = blk_size(p);
+    let q = blk_new(n, 0xA5);
+    if q.is_null() {
+        return q;
+    }
+    std::ptr::copy_nonoverlapping(p as *const u8, q as *mut u8, old.min(n));
+    blk_drop(p);
+    q
 }
 unsafe extern "C" fn c_free(p: *mut c_void) {
     if !p.is_null() {
         LIVE.fetch_sub(1, Ordering::SeqCst);
+        blk_drop(p);
     }
-    free(p)
 }
 
 fn progress_parse(parser: &mut Parser, text: &[u8], old: Option<&Tree>) -> Option<Tree> {
@@ -93,6 +129,59 @@ fn boundaries(text: &[u8]) -> Vec<usize> {
         }
     }
     b
+}
+
+/// Directed documents and scripts for zoo/c08blk.  Returns the document and a script of
+/// `(op, handle, explicit edit)` with op 0 = copy, 2 = edit, 5 = re-parse, 9 = delete.
+///  shape A (ts_parser__breakdown_lookahead): calls whose FIRST LEAF is a heap leaf (a word of 260 bytes, or
+///    a word after 18 blank lines), then the copy is wrapped into `{ … }` (two edits) and re-parsed: the reused
+///    `call` nodes are in another parse state, the parser descends to their first leaf;
+///  shape B (ts_parser__breakdown_top_of_stack): `let a <heap comment(s)> let b`, then `;` is inserted after
+///    the comments: the reused `decl` with the comments pushed on top of it has to be broken down again.
+/// Afterwards the three handles are deleted new-first or old-first (or left to the random operations).
+fn blk_plan(rng: &mut Rng, seed: u64, noise: &[u8]) -> (Vec<u8>, Vec<(usize, usize, Option<TextEdit>)>) {
+    let long_word = "q".repeat(260);
+    let blank = "\n".repeat(18);
+    let long_comment = format!("/* {}*/", "lorem ipsum dolor sit amet ".repeat(12));
+    let mut text: Vec<u8> = Vec::new();
+    let mut script: Vec<(usize, usize, Option<TextEdit>)> = vec![(0, 0, None)];
+    if seed % 2 == 0 {
+        let n = 1 + rng.below(4);
+        for i in 0..n {
+            match (seed / 2 + i as u64) % 3 {
+                0 => text.extend_from_slice(format!("{long_word} ( a b ) ").as_bytes()),
+                1 => text.extend_from_slice(format!("{blank}f ( x ) ").as_bytes()),
+                _ => text.extend_from_slice(format!("{blank}{long_word} ( ) ").as_bytes()),
+            }
+        }
+        if rng.chance(1, 2) {
+            text.extend_from_slice(noise);
+        }
+        let len = text.len();
+        script.push((2, 1, Some(TextEdit { start: 0, old_end: 0, ins: b"{ ".to_vec() })));
+        script.push((2, 1, Some(TextEdit { start: len + 2, old_end: len + 2, ins: b" }".to_vec() })));
+    } else {
+        let comments: Vec<String> = (0..1 + rng.below(3)).map(|i| match (seed / 2 + i as u64) % 3 {
+            0 => "/* one\n   two */".to_string(),
+            1 => long_comment.clone(),
+            _ => format!("{blank}/* c */"),
+        }).collect();
+        let head = format!("let a {} ", comments.join(" "));
+        text.extend_from_slice(head.as_bytes());
+        let at = text.len();
+        text.extend_from_slice(b"let b ");
+        if rng.chance(1, 2) {
+            text.extend_from_slice(noise);
+        }
+        script.push((2, 1, Some(TextEdit { start: at, old_end: at, ins: if rng.chance(1, 2) { b"; ".to_vec() } else { b";".to_vec() } })));
+    }
+    script.push((5, 1, None));
+    match (seed / 2) % 3 {
+        0 => script.extend([(9, 2, None), (9, 1, None), (9, 0, None)]), // new tree first
+        1 => script.extend([(9, 0, None), (9, 1, None), (9, 2, None)]), // old trees first
+        _ => {}
+    }
+    (text, script)
 }
 
 /// An edit that changes the ROLE of a token without touching the token itself: delete the complete
@@ -225,7 +314,19 @@ fn seq_history(out: &mut impl Write, cid: &str, lang_id: &str, b: &zoo::Built, p
         text = t.replace("\\n", "\n").into_bytes(); // test knob: fixed document
     }
     // a role history starts with: copy 0 -> 1, role-changing edit of the copy, re-parse with the copy as old tree
-    let script: Vec<(usize, usize)> = if role { vec![(0, 0), (2, 1), (5, 1)] } else { Vec::new() };
+    let mut script: Vec<(usize, usize)> = if role { vec![(0, 0), (2, 1), (5, 1)] } else { Vec::new() };
+    // explicit edits for scripted edit operations (None: role_edit chooses)
+    let mut script_edits: Vec<Option<TextEdit>> = vec![None; script.len()];
+    if lang_id == "c08blk" {
+        // HEAP leaves where the parser breaks reused nodes down; the trees are deleted in both orders
+        let (t, sc) = blk_plan(&mut rng, seed, &text);
+        text = t;
+        script = sc.iter().map(|(k, h, _)| (*k, *h)).collect();
+        script_edits = sc.into_iter().map(|(_, _, e)| e).collect();
+        if let Ok(t) = std::env::var("C08_DEBUG_TEXT") {
+            text = t.replace("\\n", "\n").into_bytes();
+        }
+    }
     let mut shared_parser = Parser::new();
     shared_parser.set_language(&b.language).unwrap();
     let parse = |shared: &mut Parser, text: &[u8], old: Option<&Tree>| -> Option<Tree> {
@@ -278,7 +379,8 @@ fn seq_history(out: &mut impl Write, cid: &str, lang_id: &str, b: &zoo::Built, p
                 let text = fam.texts[h].clone();
                 let alpha = alphabet_for(&text);
                 let refs: Vec<&[u8]> = alpha.iter().map(|v| v.as_slice()).collect();
-                let te = match if role && (opi < script.len() || rng.chance(2, 3)) { role_edit(&mut rng, &text, opi < script.len()) } else { None } {
+                let scripted = script_edits.get(opi).cloned().flatten().filter(|e| e.old_end <= text.len());
+                let te = match scripted.or_else(|| if role && (opi < script.len() || rng.chance(2, 3)) { role_edit(&mut rng, &text, opi < script.len()) } else { None }) {
                     Some(te) => te,
                     None => random_edit(&mut rng, &text, &boundaries(&text), &refs),
                 };
@@ -461,6 +563,11 @@ fn main() {
             let lang = langs[i % 4];
             let n = [2, 3, 4, 8, 16][i % 5];
             specs.push(format!("thr {lang} {} {n} {}", rng.next() % 1_000_000_007, rng.range(10, if thorough { 200 } else { 60 })));
+        }
+        // heap leaves at breakdown positions, both delete orders (wave 6)
+        for i in 0..(if thorough { 60 } else { 12 }) {
+            let mode = if i % 3 == 2 { "persist" } else { "fresh" };
+            specs.push(format!("seq c08blk {mode} {} {}", rng.next() % 1_000_000_007, rng.range(8, 30)));
         }
         // one token as extra AND as rule member, role-switching edits of copies (wave 5)
         for i in 0..(if thorough { 60 } else { 10 }) {
